@@ -33,7 +33,7 @@ package roman
 //@ func parseGroup
 //@   requires (digit5 == 'D' && digit10 == 'M' && inre(grpH, input)) || (digit5 == 'L' && digit10 == 'C' && inre(grpT, input)) || (digit5 == 'V' && digit10 == 'X' && inre(grpU, input))
 //@   requires unit == 1 || unit == 10 || unit == 100
-//@   ensures [C10.gval] int(decimal) == gval(input, oneOf(digit5), digit5, digit10) * int(unit)
+//@   ensures [C10.gval] mathint(decimal) == gval(input, oneOf(digit5), digit5, digit10) * mathint(unit)
 //@   split digit5 == 'D'
 //@   split digit5 == 'L'
 
@@ -67,6 +67,16 @@ package roman
 //@   ensures [C18.limit] len(input) > 0 && !withinLimit(len(input)) ==> errIs(err, ErrInputTooLong) && errData(err, "inputLen") == 0
 //@   ensures [C18.limit] errIs(err, ErrInputTooLong) ==> len(input) > 0 && !withinLimit(len(input))
 //@   loop 0 unroll 3
+//@   split h: run(input, hStart(input), 'C', 'D', 'M') == 0
+//@   split h: run(input, hStart(input), 'C', 'D', 'M') == 1
+//@   split h: run(input, hStart(input), 'C', 'D', 'M') == 2
+//@   split h: run(input, hStart(input), 'C', 'D', 'M') == 3
+//@   split h: run(input, hStart(input), 'C', 'D', 'M') == 4
+//@   split t: run(input, tStart(input), 'X', 'L', 'C') == 0
+//@   split t: run(input, tStart(input), 'X', 'L', 'C') == 1
+//@   split t: run(input, tStart(input), 'X', 'L', 'C') == 2
+//@   split t: run(input, tStart(input), 'X', 'L', 'C') == 3
+//@   split t: run(input, tStart(input), 'X', 'L', 'C') == 4
 
 //@ func Valid
 //@   ensures [C17.input] heapSame()
